@@ -24,7 +24,7 @@ The spec is a gen_app spec (rendered by gen_app.render) plus `spec["err"]`: the 
 """
 import gen_app
 
-PLAN = {"quick": 14, "thorough": 160}
+PLAN = {"quick": 16, "thorough": 160}
 
 
 def plan(tier):
